@@ -67,3 +67,13 @@ Example c05_ex :
   = Ok (mk_qresp (str "my server") (str "q2dm1") (qs_players st) 2 8 None [(str "dmflags", str "16")])
   /\ quake_expected st = Some (mk_qresp (str "my server") (str "q2dm1") (qs_players st) 2 8 None [(str "dmflags", str "16")]).
 Proof. split; vm_compute; reflexivity. Qed.
+
+(* the quotes around a name, skin or address field: a field wrapped in quotes (two characters at least) loses exactly the
+   two, every other field - a lone quote character included - is left as it is; the function is total *)
+From GD Require Import Proofs.QuakeQuotes.
+Theorem c05_wrapping_quotes : forall s,
+  remove_wrapping_quotes ([34] ++ s ++ [34]) = s
+  /\ remove_wrapping_quotes [34] = [34]
+  /\ ((exists inner, s = [34] ++ inner ++ [34] /\ remove_wrapping_quotes s = inner) \/ remove_wrapping_quotes s = s).
+Proof. exact (fun s => conj (quotes_wrapped s) (conj quotes_lone (quotes_spec s))). Qed.
+Print Assumptions c05_wrapping_quotes.
